@@ -9,20 +9,22 @@ EXTENDS GroupBySem, IOUtils
 Trace == JsonDeserialize(IOEnv.TRACE_FILE)
 VARIABLE i
 SetOf(s) == {s[j] : j \in DOMAIN s}
-\* GB_MODE = "nosplit" / "nomerge" checks only one half of "exactly when" (used to classify a rejection)
+\* GB_MODE = "shape" / "split" / "merged" checks only that part (used to classify a rejection)
 Mode == IF "GB_MODE" \in DOMAIN IOEnv THEN IOEnv.GB_MODE ELSE "both"
 GroupIdx(r, x) == CHOOSE g \in 1..Len(r.groups) : \E j \in 1..Len(r.groups[g]) : r.groups[g][j] = x
 Ok(r) == LET G == SetOf(r.G)  M == SetOf(r.M)  n == Len(r.ctxs) IN
-  \* a partition of the filled values
-  /\ \A x \in 1..n : Cardinality({g \in 1..Len(r.groups) : \E j \in 1..Len(r.groups[g]) : r.groups[g][j] = x}) = 1
-  /\ \A g \in 1..Len(r.groups) : \A j \in 1..Len(r.groups[g]) : r.groups[g][j] \in 1..n
-  \* arrival order inside a group
-  /\ \A g \in 1..Len(r.groups) : \A j \in 1..(Len(r.groups[g]) - 1) : r.groups[g][j] < r.groups[g][j + 1]
+  /\ Mode \in {"both", "shape"} =>
+     \* a partition of the filled values
+     /\ \A x \in 1..n : Cardinality({g \in 1..Len(r.groups) : \E j \in 1..Len(r.groups[g]) : r.groups[g][j] = x}) = 1
+     /\ \A g \in 1..Len(r.groups) : \A j \in 1..Len(r.groups[g]) : r.groups[g][j] \in 1..n
+     \* arrival order inside a group
+     /\ \A g \in 1..Len(r.groups) : \A j \in 1..(Len(r.groups[g]) - 1) : r.groups[g][j] < r.groups[g][j + 1]
   \* same group exactly when the contexts agree on every selected path
-  /\ \A x, y \in 1..n : x < y =>
+  /\ Mode # "shape" =>
+     \A x, y \in 1..n : x < y =>
         LET together == GroupIdx(r, x) = GroupIdx(r, y)  same == SameGroup(r.ctxs[x], r.ctxs[y], G, M) IN
-        /\ Mode # "nomerge" => (same => together)       \* otherwise: split
-        /\ Mode # "nosplit" => (together => same)       \* otherwise: merged
+        /\ Mode \in {"both", "split"} => (same => together)       \* otherwise the implementation splits a class
+        /\ Mode \in {"both", "merged"} => (together => same)      \* otherwise it merges two classes
 Init == i = 1
 Next == i <= Len(Trace) /\ Ok(Trace[i]) /\ i' = i + 1
 Spec == Init /\ [][Next]_i
